@@ -139,6 +139,9 @@ def cases(draw, tier):
         elif r < 6 and not have_sib:
             hist.append({"op": "sibling"})
             have_sib = True
+        elif r == 6 and "model" in provs:
+            # the model object is attached as a listener as well: one object in two roles is still called once per callback
+            hist.append({"op": "attach", "prov": "model", "again": True, "via": via})
         if draw(st.integers(0, 9)) == 0:
             hist.append({"op": "deficient_instance"})
         if draw(st.integers(0, 7)) == 0:
